@@ -957,19 +957,21 @@ def k_sup_grid(ctx: Ctx):
             for pa, pb in itertools.product(range(4), repeat=2):
                 ha = counter_history(a, rng.randrange(n), pa)
                 hb = counter_history(b, rng.randrange(n), pb)
-                ok, ss = attempt(lambda: (ComputationalBasisState(n, bits=a).with_gates_applied(real_seq("L", ha)),
-                                          ComputationalBasisState(n, bits=b).with_gates_applied(real_seq("L", hb))))
+                ta = rand_bits_type(rng, n, p=0.6)
+                tb = rand_bits_type(rng, n, partner=ta, p=0.6)
+                ok, ss = attempt(lambda: (ComputationalBasisState(n, bits=as_bits(ta, a)).with_gates_applied(real_seq("L", ha)),
+                                          ComputationalBasisState(n, bits=as_bits(tb, b)).with_gates_applied(real_seq("L", hb))))
                 if not ok:
-                    ctx.witness("pauli-track-rejects", f"a valid Pauli gate list is rejected: {ss}", {"n": n, "a": a, "b": b, "gates_a": describe_gates(ha), "gates_b": describe_gates(hb)})
+                    ctx.witness("pauli-track-rejects", f"a valid Pauli gate list is rejected: {ss}", {"n": n, "a": a, "b": b, "bits_types": [ta, tb], "gates_a": describe_gates(ha), "gates_b": describe_gates(hb)})
                     continue
                 sa, sb = ss
                 if read_descr(sa) != (n, a, pa) or read_descr(sb) != (n, b, pb):
                     ctx.witness("pauli-track", f"(X·Y)^k histories: expected {(n, a, pa)} and {(n, b, pb)}, got {read_descr(sa)} and {read_descr(sb)}",
-                                {"n": n, "gates_a": describe_gates(ha), "gates_b": describe_gates(hb)})
+                                {"n": n, "bits_types": [ta, tb], "gates_a": describe_gates(ha), "gates_b": describe_gates(hb)})
                     continue
                 for theta in thetas:
                     for phi in phis:
-                        inp = {"n": n, "a": [a, pa], "b": [b, pb], "theta": theta, "phi": phi,
+                        inp = {"n": n, "a": [a, pa], "b": [b, pb], "bits_types": [ta, tb], "theta": theta, "phi": phi,
                                "total_relative_phase_quarter_turns": phi / (2 * QUARTER) + pb - pa}
                         ok, st = attempt(lambda: comp_basis_superposition(sa, sb, theta, phi))
                         n_eval += 1
@@ -1017,6 +1019,7 @@ def oracle_search(ctx: Ctx, budget_s: float, min_iter: int):
         n = rng.randint(1, 6) if (mode == "general" or rng.random() < 0.7) else rng.choice([9, 20, 63, 64, 65, 70])
         bits = rand_bits(rng, n)
         hist = build_phase_history(rng, n, bits, rng.randint(0, 8))
+        bt = rand_bits_type(rng, n)
         if mode == "reject":
             # exactly the lists with an index ≥ n have no meaning on an n-qubit register: they must be refused
             bad_gate = rand_pauli_gate(rng, n, malformed=True)
@@ -1025,17 +1028,17 @@ def oracle_search(ctx: Ctx, budget_s: float, min_iter: int):
             gl = list(hist)
             gl.insert(rng.randint(0, len(gl)), bad_gate[0])
             try:
-                out = ComputationalBasisState(n, bits=bits).with_gates_applied(real_seq("L", gl))
+                out = ComputationalBasisState(n, bits=as_bits(bt, bits)).with_gates_applied(real_seq("L", gl))
                 ctx.count("oracle.reject", "ACCEPTED")
                 ctx.witness("accepts-out-of-range-gate", f"a Pauli gate on a qubit index ≥ qubit_count={n} was accepted: result {out!r}"[:300],
-                            {"n": n, "bits": bits, "gates": describe_gates(gl)})
+                            {"n": n, "bits": bits, "bits_type": bt, "gates": describe_gates(gl)})
             except Exception as e:  # noqa: BLE001
                 ctx.count("oracle.reject", type(e).__name__)
             n_eval += 1
             return
         try:
             # a derivation chain: the list is applied in random chunks, each parent possibly inspected (.circuit) first
-            s = ComputationalBasisState(n, bits=bits)
+            s = ComputationalBasisState(n, bits=as_bits(bt, bits))
             chain = rng.random() < 0.5
             k0 = 0
             while True:
@@ -1051,40 +1054,43 @@ def oracle_search(ctx: Ctx, budget_s: float, min_iter: int):
                 if k0 >= len(hist):
                     break
         except Exception as e:  # noqa: BLE001
-            ctx.witness("pauli-track-rejects", f"a valid Pauli gate list is rejected: {exc_name(e)}", {"n": n, "bits": bits, "gates": describe_gates(hist)})
+            ctx.witness("pauli-track-rejects", f"a valid Pauli gate list is rejected: {exc_name(e)}", {"n": n, "bits": bits, "bits_type": bt, "gates": describe_gates(hist)})
             return
         n_eval += 1
         # (1) bookkeeping = actual action of the Pauli gates on |bits>
         if not isinstance(s, ComputationalBasisState):
-            ctx.witness("pauli-track", "a Pauli-only gate list did not yield a ComputationalBasisState", {"n": n, "bits": bits, "gates": describe_gates(hist)})
+            ctx.witness("pauli-track", "a Pauli-only gate list did not yield a ComputationalBasisState", {"n": n, "bits": bits, "bits_type": bt, "gates": describe_gates(hist)})
             return
         v = vec_of(n, real_seq("L", hist), bits, 0)
         n1, b1, p1 = s._as_tuple()
+        b1 = int(b1)
         want = orc.sparse_basis(b1, p1) if 0 <= b1 else {}
         d = max([abs(v.get(k, 0) - want.get(k, 0)) for k in set(v) | set(want)] + [0.0 if n1 == n else 1.0])
         worst["pauli"] = max(worst["pauli"], d)
         ctx.count("oracle.pauli", ("dense " if n <= 6 else "sparse ") + ("ok" if d <= NUM_TOL else "MISMATCH"))
         if d > NUM_TOL:
             ctx.witness("pauli-track", f"(bits, phase) = ({b1}, {p1}) does not describe the vector obtained by applying the gates (max diff {d:.3g})",
-                        {"n": n, "bits": bits, "gates": describe_gates(hist)}, {"got_bits": b1, "got_phase": p1})
+                        {"n": n, "bits": bits, "bits_type": bt, "gates": describe_gates(hist)}, {"got_bits": b1, "got_phase": p1})
             return
         # the state's own circuit prepares |bits'>
         w = vec_of(n, s.circuit.gates)
         if w is None or orc.sparse_phase_defect(w, v) > NUM_TOL:
             ctx.witness("basis-circuit", "ComputationalBasisState.circuit does not prepare the tracked basis state",
-                        {"n": n, "bits": bits, "gates": describe_gates(hist)}, {"circuit": canon_real_gates(s.circuit.gates)[:300]})
+                        {"n": n, "bits": bits, "bits_type": bt, "gates": describe_gates(hist)}, {"circuit": canon_real_gates(s.circuit.gates)[:300]})
         if mode == "sup":
             bits2 = rng.choice([rand_bits(rng, n), b1 ^ (1 << rng.randrange(n)), b1 ^ (1 << (n - 1)), b1])
             hist2 = build_phase_history(rng, n, bits2, rng.randint(0, 6))
+            bt2 = rand_bits_type(rng, n, partner=bt)
             try:
-                s2 = ComputationalBasisState(n, bits=bits2).with_gates_applied(real_seq("L", hist2))
+                s2 = ComputationalBasisState(n, bits=as_bits(bt2, bits2)).with_gates_applied(real_seq("L", hist2))
             except Exception as e:  # noqa: BLE001
-                ctx.witness("pauli-track-rejects", f"a valid Pauli gate list is rejected: {exc_name(e)}", {"n": n, "bits": bits2, "gates": describe_gates(hist2)})
+                ctx.witness("pauli-track-rejects", f"a valid Pauli gate list is rejected: {exc_name(e)}", {"n": n, "bits": bits2, "bits_type": bt2, "gates": describe_gates(hist2)})
                 return
             if not isinstance(s2, ComputationalBasisState):
-                ctx.witness("pauli-track", "a Pauli-only gate list did not yield a ComputationalBasisState", {"n": n, "bits": bits2, "gates": describe_gates(hist2)})
+                ctx.witness("pauli-track", "a Pauli-only gate list did not yield a ComputationalBasisState", {"n": n, "bits": bits2, "bits_type": bt2, "gates": describe_gates(hist2)})
                 return
             _, b2, p2 = s2._as_tuple()
+            b2 = int(b2)
             theta, phi = rand_angle(rng), rand_angle(rng)
             tgt = orc.sparse_target(b1, p1, b2, p2, theta, phi)
             nt = orc.sparse_norm(tgt)
@@ -1092,7 +1098,7 @@ def oracle_search(ctx: Ctx, budget_s: float, min_iter: int):
                 ctx.count("oracle.sup", "zero-target-skipped")
                 return
             tgt = {k: z / nt for k, z in tgt.items()}
-            inp = {"n": n, "a": [b1, p1], "b": [b2, p2], "theta": theta, "phi": phi}
+            inp = {"n": n, "a": [b1, p1], "b": [b2, p2], "bits_types": [bt, bt2], "theta": theta, "phi": phi}
             try:
                 st = comp_basis_superposition(s, s2, theta, phi)
             except Exception as e:  # noqa: BLE001
@@ -1207,11 +1213,37 @@ def read_descr(s):
         return f"unreadable {type(e).__name__}"
 
 
-def chain_derive(rng, n, bits, hist):
+BITS_TYPES = [("uint8", 8), ("uint16", 16), ("uint32", 32), ("uint64", 64), ("int8", 7), ("int16", 15), ("int32", 31), ("int64", 63)]
+
+
+def rand_bits_type(rng, n, partner=None, p=0.4):
+    """the integer type in which a caller hands over an n-qubit bit pattern: 'int', or (probability p) a signed /
+    UNSIGNED numpy scalar type whose non-negative range holds every n-bit pattern – then every mask 1 << i (i < n) the
+    library forms is representable and numpy raises nothing by its own rules; the unchanged library treats such values
+    exactly like ints.  `partner` = type of the other state of a superposition: numpy itself refuses uint64 ^ signed."""
+    if rng.random() >= p:
+        return "int"
+    ok = [t for t, cap in BITS_TYPES if n <= cap]
+    if partner == "uint64":
+        ok = [t for t in ok if t.startswith("u")]
+    elif partner is not None and partner.startswith("int") and partner != "int":
+        ok = [t for t in ok if t != "uint64"]
+    return rng.choice(ok) if ok else "int"
+
+
+def as_bits(btype, bits):
+    if btype == "int":
+        return int(bits)
+    import numpy as np
+
+    return getattr(np, btype)(int(bits))
+
+
+def chain_derive(rng, n, bits, hist, btype="int"):
     """ComputationalBasisState(n, bits) with the Pauli specs `hist` applied in random chunks / forms / entry points"""
     from quri_parts.core.state import ComputationalBasisState
 
-    s = ComputationalBasisState(n, bits=bits)
+    s = ComputationalBasisState(n, bits=as_bits(btype, bits))
     k0 = 0
     while k0 < len(hist):
         k1 = rng.randint(k0 + 1, len(hist))
@@ -1292,8 +1324,10 @@ def obj_eq_hash(ctx: Ctx, rng):
         bits2 = rand_bits(rng, n)
         hist2 = [rand_pauli_gate(rng, n)[0] for _ in range(rng.randint(0, 7))]
     inp = {"a": {"n": n, "bits": bits, "gates": describe_gates(hist)}, "b": {"n": n2, "bits": bits2, "gates": describe_gates(hist2)}}
-    ok1, s1 = attempt(lambda: chain_derive(rng, n, bits, hist))
-    ok2, s2 = attempt(lambda: chain_derive(rng, n2, bits2, hist2))
+    t1, t2 = rand_bits_type(rng, n), rand_bits_type(rng, n2)
+    inp["a"]["bits_type"], inp["b"]["bits_type"] = t1, t2
+    ok1, s1 = attempt(lambda: chain_derive(rng, n, bits, hist, t1))
+    ok2, s2 = attempt(lambda: chain_derive(rng, n2, bits2, hist2, t2))
     if not (ok1 and ok2):
         ctx.witness("pauli-track-rejects", f"a valid Pauli gate list is rejected: {s1 if not ok1 else s2}", inp)
         return
@@ -1514,7 +1548,8 @@ def obj_entry_points(ctx: Ctx, rng):
     # --- apply_circuit
     hist = [rand_pauli_gate(rng, n)[0] for _ in range(rng.randint(0, 5))]
     if mode == "apply-cb":
-        ok, src = attempt(lambda: chain_derive(rng, n, bits, hist))
+        inp["bits_type"] = rand_bits_type(rng, n)
+        ok, src = attempt(lambda: chain_derive(rng, n, bits, hist, inp["bits_type"]))
         inp["history"] = describe_gates(hist)
     elif mode == "apply-general":
         pre = mixed_specs(rng, n, 0, 3)
@@ -1562,12 +1597,16 @@ def obj_angle_forms(ctx: Ctx, rng):
         b = a ^ (1 << rng.randrange(min(n, 64)))
     ha = [rand_pauli_gate(rng, n)[0] for _ in range(rng.randint(0, 4))]
     hb = [rand_pauli_gate(rng, n)[0] for _ in range(rng.randint(0, 4))]
-    ok, ss = attempt(lambda: (chain_derive(rng, n, a, ha), chain_derive(rng, n, b, hb)))
+    ta = rand_bits_type(rng, n)
+    tb = rand_bits_type(rng, n, partner=ta)
+    ok, ss = attempt(lambda: (chain_derive(rng, n, a, ha, ta), chain_derive(rng, n, b, hb, tb)))
     if not ok:
+        ctx.witness("pauli-track-rejects", f"a valid Pauli gate list is rejected: {ss}",
+                    {"n": n, "a": a, "b": b, "bits_types": [ta, tb], "gates_a": describe_gates(ha), "gates_b": describe_gates(hb)})
         return
     sa, sb = ss
     if rng.random() < 0.1:
-        sb, b, hb = sa, a, ha
+        sb, b, hb, tb = sa, a, ha, ta
     da, db = indep_descr(n, a, real_seq("L", ha)), indep_descr(n, b, real_seq("L", hb))
     x = da[1] ^ db[1]
     if x and x % (1 << 64) == 0:
@@ -1593,7 +1632,7 @@ def obj_angle_forms(ctx: Ctx, rng):
     (theta, th), (phi, ph) = form(ft), form(fp)
     kw = rng.random() < 0.3
     inp = {"n": n, "a": list(da[1:]), "b": list(db[1:]), "theta": repr(theta), "phi": repr(phi), "theta_form": ft, "phi_form": fp,
-           "keywords": kw, "same_object": sa is sb}
+           "keywords": kw, "same_object": sa is sb, "bits_types": [ta, tb]}
     tgt = orc.sparse_target(da[1], da[2], db[1], db[2], th, ph)
     nt = orc.sparse_norm(tgt)
     if nt < 1e-3:
@@ -1627,8 +1666,9 @@ def obj_arg_reuse(ctx: Ctx, rng):
     bits = rand_bits(rng, n)
     src_kind = rng.choice(["cb", "cb", "general", "vector"])
     hist = [rand_pauli_gate(rng, n)[0] for _ in range(rng.randint(0, 4))]
+    bt = rand_bits_type(rng, n)
     if src_kind == "cb":
-        ok, src = attempt(lambda: chain_derive(rng, n, bits, hist))
+        ok, src = attempt(lambda: chain_derive(rng, n, bits, hist, bt))
     elif src_kind == "general":
         ok, src = attempt(lambda: GeneralCircuitQuantumState(n, real_seq(f"C{n}", hist)))
     else:
@@ -1641,7 +1681,7 @@ def obj_arg_reuse(ctx: Ctx, rng):
     second = mixed_specs(rng, n, 1, 2, pauli_only=rng.random() < 0.5)
     form = rng.choice(["L", f"C{n}"])
     arg = real_seq(form, first)
-    inp = {"n": n, "source": src_kind, "bits": bits, "history": describe_gates(hist), "first": describe_gates(first),
+    inp = {"n": n, "source": src_kind, "bits": bits, "bits_type": bt if src_kind == "cb" else None, "history": describe_gates(hist), "first": describe_gates(first),
            "then_appended": describe_gates(second), "argument": "list" if form == "L" else "QuantumCircuit"}
     ctx.case(("reuse", n, src_kind, bits, form[0], tuple(canon_spec(g) for g in hist + first + second)), nontrivial=True)
     ok1, r1 = attempt(lambda: src.with_gates_applied(arg))
